@@ -305,8 +305,11 @@ func textSpecs() []*Spec {
 		{Mod: "text", Fn: "format_float", Go: "strconv.FormatFloat", Ps: []P{pF("f"), pSa("fmt", "FMTCH"), pI("prec", "PREC"), pI("bits", "FBITS")},
 			Ref: func(a []interface{}) R {
 				f := aS(a, 1)
+				if len(f) == 0 {
+					return R{Undef: true, OutOfDomain: true} // FormatFloat takes a format byte: there is none
+				}
 				if len(f) != 1 {
-					return rUndef() // FormatFloat takes one format byte
+					return rUndef() // more than one byte: which one is used is not documented
 				}
 				return rS(strconv.FormatFloat(aF(a, 0), f[0], aI(a, 2), aI(a, 3)))
 			}},
